@@ -8,6 +8,7 @@ import (
 	"strings"
 	"time"
 
+	"github.com/istio-ecosystem/authservice/zzverif/hidden"
 	"github.com/istio-ecosystem/authservice/zzverif/seqx"
 	"github.com/istio-ecosystem/authservice/zzverif/world"
 )
@@ -460,6 +461,9 @@ func (o hOpts) model(monitors ...hMonitor) seqx.Model {
 			}
 		}
 		fmt.Fprintf(&sb, "|stale=%v|dev=%d|crash=%v", stale, h.Dev, w.Crashes > 0)
+		if hs := hidden.Dump(w.Raw, "log", "clock", "mu", "sessions", "client", "absoluteSessionTimeout", "idleSessionTimeout"); hs != "{}" {
+			sb.WriteString("|hidden:" + hs)
+		}
 		if o.MaxSessions > 0 {
 			fmt.Fprintf(&sb, "|nsid=%d", len(w.Gen.SIDs))
 		}
